@@ -414,7 +414,7 @@ def fill_twin_ops(rs, data, kind, ops):
                    for i in range(N)):
                 break
             thr = f32(thr * 1.013 + 1e-3)
-        md = int(rs.choice([0, 1, 2, 3, 7]))
+        md = int(rs.choice([0, 1, 2, 3, 7, 10]))
         out.append([["twin", "twins"][rs.randint(0, 4) == 0], dim, tau, thr, md])
     return out
 
@@ -435,9 +435,18 @@ def gen_surrogate_histories(rs, tier):
                 data = np.array([make_series(rs, kind, n) for _ in range(N)])
                 yield {"kind": "surrogates", "data": data.tolist(), "ops": base_ops,
                        "rng": int(rs.randint(0, 2 ** 31))}
+    # (a2) every method before and after normalize_original_data on the same object
+    norm_ops = [["cn"], ["raaft", 2, "both"], ["wn"], ["aaft"], ["norm"], ["cn"],
+                ["raaft", 2, "both"], ["wn"], ["aaft"], ["norm"], ["cn"], ["raaft", 1, "true_spectrum"]]
+    for n in ([5, 8, 13, 32] if quick else [3, 4, 5, 8, 13, 21, 32, 50, 101]):
+        for N in (1, 3):
+            for kind in ("gauss", "logistic"):
+                data = np.array([3.0 + 2.5 * make_series(rs, kind, n) for _ in range(N)])
+                yield {"kind": "surrogates", "data": data.tolist(), "ops": norm_ops,
+                       "rng": int(rs.randint(0, 2 ** 31))}
     # (b) random histories incl. twin surrogates and normalisation
     kinds = ["gauss", "ties", "periodic", "periodic-ties", "logistic", "sine"]
-    for it in range(60 if quick else 700):
+    for it in range(240 if quick else 1500):
         kind = kinds[it % len(kinds)]
         n = int(rs.randint(2, 28 if quick else 60))
         N = int(rs.randint(1, 4))
@@ -448,7 +457,7 @@ def gen_surrogate_histories(rs, tier):
         yield {"kind": "surrogates", "data": data.tolist(), "ops": ops,
                "rng": int(rs.randint(0, 2 ** 31))}
     # (c) twin surrogates on data built to have many twins, repeated calls, several seeds
-    for it in range(40 if quick else 400):
+    for it in range(160 if quick else 1000):
         kind = ["periodic", "periodic-ties", "sine", "logistic"][it % 4]
         n = int(rs.randint(6, 40 if quick else 90))
         N = int(rs.randint(1, 4))
@@ -505,7 +514,7 @@ def gen_exhaustive_twins(tier):
 def gen_rp_histories(rs, tier):
     quick = tier == "quick"
     kinds = ["periodic", "periodic-ties", "sine", "logistic", "gauss", "ties"]
-    for it in range(80 if quick else 900):
+    for it in range(400 if quick else 3000):
         kind = kinds[it % len(kinds)]
         n = int(rs.randint(1, 36 if quick else 80))
         metric = ["supremum", "manhattan", "euclidean"][rs.randint(0, 3)]
@@ -524,7 +533,7 @@ def gen_rp_histories(rs, tier):
         thr = pick_threshold(rs, emb, kind, metric)
         ops = []
         for _ in range(int(rs.randint(2, 6))):
-            md = int(rs.choice([0, 1, 2, 3, 7]))
+            md = int(rs.choice([0, 1, 2, 3, 7, 10, 12]))
             if rs.randint(0, 2):
                 ops.append(["twins", md])
             else:
@@ -542,7 +551,7 @@ SCOPE = (
     "method called repeatedly and interleaved on ONE object (histories of 3..12 calls, optionally "
     "with normalize_original_data in between), NumPy and Python RNG seeded per history; "
     "refined AAFT with 0..5 iterations and all three outputs; twin surrogates with dim 1..3, "
-    "delay 1..3, min_dist in {0,1,2,3,7}, thresholds float32-representable and clear of every "
+    "delay 1..3, min_dist in {0,1,2,3,7,10,12}, thresholds float32-representable and clear of every "
     "pairwise distance.  Exhaustive: all series over {0,1,2} up to length 5 (quick) / 7 (thorough) "
     "x (dim,tau) in {(1,1),(2,1),(2,2),(3,1)} x threshold {0.5,1.5} x min_dist {0,1,2} for "
     "Surrogates.twins / twin_surrogates and RecurrencePlot.twins / twin_surrogates; random "
